@@ -198,7 +198,7 @@ Fixpoint iter_range (n : nat) (k : Z) (body : Z -> state -> outcome) (st : state
             end
   end.
 
-Definition call_depth : nat := 4.
+Definition call_depth : nat := 40.
 
 Fixpoint exec (fuel : nat) (st : state) (s : stmt) {struct fuel} : outcome :=
   match fuel with
